@@ -11,8 +11,11 @@ declare -A DEST=( [C01-a]=tests/seed_demo.rs [C03-a]=tests/seed_c03_demo.rs [C05
  [C09-a]=tests/c09_demo.rs [C11-a]=tests/c11_demo.rs [C12-a]=tests/seed_c12_demo.rs [C18-a]=tests/c18_demo.rs
  [C13-a]=crates/polytune-server-core/tests/seed_c13_demo.rs [C14-a]=crates/polytune-server-core/tests/c14_dup_schedule.rs
  [C15-a]=crates/polytune-server-core/tests/c15_demo.rs [C16-a]=crates/polytune-server-core/tests/c16_demo.rs
- [C17-a]=crates/polytune-server-core/tests/c17_demo.rs [C10-a]=APPEND:src/mpc/faand.rs [C19-a]=MOD:src/utils/c19_demo.rs )
-names=${@:-$(ls /verif/seeded | grep -- '-a$')}
+ [C17-a]=crates/polytune-server-core/tests/c17_demo.rs [C10-a]=APPEND:src/mpc/faand.rs [C19-a]=MOD:src/utils/c19_demo.rs:src/utils.rs:c19_demo
+ [C02-a]=tests/c02_demo.rs [C04-a]=tests/c04_demo.rs [C06-a]=tests/c06_mask_reuse.rs [C07-a]=tests/c07_seed_demo.rs
+ [C13-b]=crates/polytune-server-core/tests/c13_demo.rs [C15-b]=crates/polytune-server-core/tests/seed_c15b_demo.rs
+ [C17-b]=crates/polytune-server-core/tests/seed_c17b_demo.rs [C20-a]=MOD:src/transpose/seed_demo.rs:src/transpose.rs:seed_demo )
+names=${@:-$(ls -d /verif/seeded/*/ | xargs -n1 basename)}
 for s in $names; do
   d=/verif/seeded/$s; dest=${DEST[$s]}
   [ -z "$dest" ] && { echo "$s: no demo mapping" >> $LOG; continue; }
@@ -21,14 +24,14 @@ for s in $names; do
   place() {
     case $dest in
       APPEND:*) cat $d/demo.rs >> ${dest#APPEND:};;
-      MOD:*) cp $d/demo.rs ${dest#MOD:}; echo '#[cfg(test)] mod c19_demo;' >> src/utils.rs;;
+      MOD:*) IFS=: read -r _ f parent m <<< "$dest"; mkdir -p $(dirname $f); cp $d/demo.rs $f; printf '\n#[cfg(test)]\nmod %s;\n' $m >> $parent;;
       *) mkdir -p $(dirname $dest); cp $d/demo.rs $dest;;
     esac
   }
   demo() {
     case $dest in
       APPEND:*) cargo test --offline -p polytune --lib c10_demo 2>&1 | tail -3 | tr '\n' ' ';;
-      MOD:*) cargo test --offline -p polytune --lib c19_demo 2>&1 | tail -3 | tr '\n' ' ';;
+      MOD:*) IFS=: read -r _ f parent m <<< "$dest"; cargo test --offline -p polytune --lib $m 2>&1 | grep -E "^test result|error\[" | tr '\n' ' ';;
       crates/*) t=$(basename $dest .rs); cargo test --offline -p polytune-server-core --test $t 2>&1 | grep -E "^test result|error\[" | tr '\n' ' ';;
       *) t=$(basename $dest .rs); cargo test --offline -p polytune --features __bench --test $t 2>&1 | grep -E "^test result|error\[" | tr '\n' ' ';;
     esac
